@@ -696,6 +696,21 @@ pub fn get<'a>(it: &'a Item, path: &[usize]) -> Option<&'a Item> {
     }
 }
 
+/// Rewrite some `null` items as `undefined` (f7): to a CBOR layer that has no separate
+/// "undefined" the two are the same value.
+pub fn undefine(rng: &mut Rng, it: &mut Item, depth: usize) {
+    if depth > 64 {
+        return;
+    }
+    match &mut it.kind {
+        Kind::Array(a) => a.iter_mut().for_each(|x| undefine(rng, x, depth + 1)),
+        Kind::Map(m) => m.iter_mut().for_each(|(_, v)| undefine(rng, v, depth + 1)),
+        Kind::Tag(_, b) => undefine(rng, b, depth + 1),
+        Kind::Simple(22) if rng.bool() => it.kind = Kind::Simple(23),
+        _ => {}
+    }
+}
+
 /// Rewrite some integers of the tree as bignums (tag 2 / tag 3 around the big-endian magnitude).
 pub fn bignumify(rng: &mut Rng, it: &mut Item, depth: usize) {
     if depth > 64 {
